@@ -43,19 +43,21 @@ type BCase struct {
 	Alter  string `json:"alter"`  // label of the alteration ("genuine" for none)
 	Header []byte `json:"header"` // protobuf of the light block's (verified) header
 
-	Block       *consensus.Block               `json:"block,omitempty"`
-	Results     *consensus.BlockResults        `json:"results,omitempty"`
-	ResultsHash []byte                         `json:"results_hash"`
-	Txs         [][]byte                       `json:"txs,omitempty"`
-	Proof       []byte                         `json:"proof,omitempty"`
-	Tx          *transaction.SignedTransaction `json:"tx,omitempty"`
-	Validators  *consensus.Validators          `json:"validators,omitempty"`
-	Params      *consensus.Parameters          `json:"params,omitempty"`
-	StateParams *genesis.Parameters            `json:"state_params,omitempty"` // nil: the state query fails
-	Chain       [][]byte                       `json:"chain,omitempty"`        // core-*: headers of the preloaded trusted light blocks, ascending
-	Height      int64                          `json:"height,omitempty"`       // core-*/api-*: requested height
-	ChainVals   [][]byte                       `json:"chain_vals,omitempty"`   // api-*: protobuf validator set of every preloaded light block
-	Honest      *BCase                         `json:"honest,omitempty"`       // the unaltered response (for the oracle)
+	Block        *consensus.Block               `json:"block,omitempty"`
+	Results      *consensus.BlockResults        `json:"results,omitempty"`
+	ResultsHash  []byte                         `json:"results_hash"`
+	Txs          [][]byte                       `json:"txs,omitempty"`
+	Proof        []byte                         `json:"proof,omitempty"`
+	Tx           *transaction.SignedTransaction `json:"tx,omitempty"`
+	Validators   *consensus.Validators          `json:"validators,omitempty"`
+	Params       *consensus.Parameters          `json:"params,omitempty"`
+	StateParams  *genesis.Parameters            `json:"state_params,omitempty"`  // nil: the state query fails
+	Chain        [][]byte                       `json:"chain,omitempty"`         // core-*: headers of the preloaded trusted light blocks, ascending
+	Height       int64                          `json:"height,omitempty"`        // core-*/api-*: requested height
+	ChainCommits [][]byte                       `json:"chain_commits,omitempty"` // signed chains: protobuf commit of every header; the light client then runs over in-memory providers with Chain[0] as trust root
+	Forge        string                         `json:"forge,omitempty"`         // signed chains: "primary" / "all": providers serve a light block with corrupted signatures at Height
+	ChainVals    [][]byte                       `json:"chain_vals,omitempty"`    // api-*: protobuf validator set of every preloaded light block
+	Honest       *BCase                         `json:"honest,omitempty"`        // the unaltered response (for the oracle)
 }
 
 func lightBlockOf(header []byte) *cmttypes.LightBlock {
@@ -554,6 +556,8 @@ type tuple struct {
 	stateParams *genesis.Parameters
 	sigTxs      []*transaction.SignedTransaction
 	height      int64
+	hdr         cmttypes.Header
+	commit      []byte // protobuf of the signed commit FOR this header (signed chains only)
 	valsProto   []byte // protobuf of the validator set of this height
 	root        []byte // state root carried by the block's metadata transaction
 }
@@ -581,12 +585,12 @@ func plainTx(r *prng.R) *transaction.SignedTransaction {
 
 func mkTuple(r *prng.R, idx int) *tuple {
 	heights := []int64{1, 2, 7, 25300000, 1<<31 + 5, 1<<63 - 2}
-	return mkTupleAt(r, fmt.Sprintf("constructed-%d", idx), heights[idx%len(heights)], r.Bytes(32), r.Bytes(32))
+	return mkTupleAt(r, fmt.Sprintf("constructed-%d", idx), heights[idx%len(heights)], r.Bytes(32), r.Bytes(32), nil)
 }
 
 // mkTupleAt builds a consistent tuple at the given height whose header carries
 // the given AppHash and LastResultsHash (those of the previous height).
-func mkTupleAt(r *prng.R, name string, height int64, appHash, lastResultsHash []byte) *tuple {
+func mkTupleAt(r *prng.R, name string, height int64, appHash, lastResultsHash []byte, link *chainLink) *tuple {
 	ntx := []int{1, 2, 3, 5, 8}[r.Intn(5)]
 	var root hash.Hash
 	copy(root[:], r.Bytes(32))
@@ -622,6 +626,12 @@ func mkTupleAt(r *prng.R, name string, height int64, appHash, lastResultsHash []
 		commit = &cmttypes.Commit{}
 		lastBlockID = cmttypes.BlockID{}
 	}
+	if link != nil {
+		vals, nextVals, lastBlockID, ts = link.vals, link.nextVals, link.lastBlockID, link.ts
+		if link.lastCommit != nil {
+			commit = link.lastCommit
+		}
+	}
 	data := cmttypes.Data{Txs: txs}
 	hdr := cmttypes.Header{
 		Version: cmtversion.Consensus{Block: 11, App: cp.Version.App}, ChainID: "verif-chain", Height: height, Time: ts,
@@ -652,7 +662,7 @@ func mkTupleAt(r *prng.R, name string, height int64, appHash, lastResultsHash []
 	sp := &genesis.Parameters{TimeoutCommit: time.Second, MaxTxSize: 32768, MaxBlockSize: uint64(cp.Block.MaxBytes), MaxBlockGas: 1000, MaxEvidenceSize: 51200, MinGasPrice: uint64(r.Intn(5))}
 	pbp := cp.ToProto()
 	params := &consensus.Parameters{Height: height, Parameters: *sp, Meta: must(pbp.Marshal())}
-	return &tuple{name: name, height: height, valsProto: must(must(vals.ToProto()).Marshal()), root: root[:], header: must(hdr.ToProto().Marshal()), nextHeader: must(next.ToProto().Marshal()),
+	return &tuple{name: name, hdr: hdr, height: height, valsProto: must(must(vals.ToProto()).Marshal()), root: root[:], header: must(hdr.ToProto().Marshal()), nextHeader: must(next.ToProto().Marshal()),
 		block: cblk, txs: raw, results: results, resultsHash: resultsHash,
 		validators: must(light.EncodeValidators(nextVals, height+1)), params: params, stateParams: sp, sigTxs: sigTxs}
 }
@@ -1126,7 +1136,7 @@ func mainBind(seed uint64, rounds int, out, replay string) {
 		}
 		// an honest initial block whose header has an EMPTY AppHash (api.NewBlock maps it to
 		// the empty-hash constant, verifyBlock compares with the raw AppHash): documented, not alarmed
-		tpE := mkTupleAt(r.Fork(), "empty-apphash", 1, nil, cmttypes.NewResults(nil).Hash())
+		tpE := mkTupleAt(r.Fork(), "empty-apphash", 1, nil, cmttypes.NewResults(nil).Hash(), nil)
 		hbE := &BCase{Kind: "block", Alter: "honest-response-with-empty-apphash", Header: tpE.header, Block: tpE.block}
 		hbE.Honest = &BCase{Block: tpE.block}
 		resE := runB(*hbE)
